@@ -65,7 +65,7 @@ def check(ctx):
             finding = None
             if 'raised RecursionError' in str(v) and L.is_deep(s):
                 continue
-            ctx.fail('range-unsound' if 'raised' not in str(v) else 'range-crash', {'bits': b, 'expr': s}, v, finding)
+            ctx.fail('range-unsound' if 'raised' not in str(v) else 'range-crash', {'bits': b, 'expr': s}, v, finding, replay=('harness.intexpr_lib', 'oracle_codomain' if b <= 10 else 'oracle_codomain_sampled', [b, s]))
     ctx.samples = [{'bits': b, 'expr': s, 'origin': o} for (b, s, o) in cases[::max(1, len(cases) // 10)]][:10]
     return common.finish(
         ctx, 'proof', build, aud, TRUSTED, ASSUME,
